@@ -586,7 +586,19 @@ func (v *Protocol) readMessageHeader(chunk *chunkStream, format formatType) (err
 
 		// TODO: FIXME: Support detect the extended timestamp.
 		// @see http://blog.csdn.net/win_lin/article/details/13363699
-		chunk.header.Timestamp = uint64(timestamp)
+		if format == formatType0 {
+			// The absolute timestamp, which is also the delta of a following fmt=3 message.
+			chunk.header.Timestamp = uint64(timestamp)
+			chunk.header.timestampDelta = timestamp
+		} else if format <= formatType2 {
+			// For fmt=1/2 the extended timestamp carries the delta.
+			chunk.header.timestampDelta = timestamp
+			chunk.header.Timestamp += uint64(timestamp)
+		} else if isFirstChunkOfMsg {
+			// A fmt=3 chunk starting a message repeats the previous delta,
+			// while for continuation chunks the timestamp is not changed.
+			chunk.header.Timestamp += uint64(chunk.header.timestampDelta)
+		}
 	}
 
 	// The extended-timestamp must be unsigned-int,
